@@ -156,12 +156,19 @@ def type_features(mod, t, _seen=None, depth=0):
                     out.add("int.semi.lb!=0")
             if lb is None and (ub is not None):
                 out.add("int.min..ub")
+            if ub is not None and ub > (1 << 63) - 1:
+                out.add("int.ub>int64")
         if t.size:
             out.add("cons.size")
             if t.size.ext:
                 out.add("cons.ext")
         if t.alpha:
             out.add("cons.from")
+            cps = sorted({c for lo, hi in t.alpha.ranges for c in range(lo, hi + 1)})
+            contiguous = cps[-1] - cps[0] + 1 == len(cps)
+            bits = max(0, (len(cps) - 1).bit_length())
+            if not contiguous and cps[-1] > 255 and cps[-1] > (1 << bits) - 1:
+                out.add("from.sparse>255")
         if t.ext:
             out.add("ext." + k)
         if t.named and k in ("INTEGER", "BITSTRING"):
@@ -200,6 +207,8 @@ def value_features(mod, t, v, out=None):
         if n and not rt.named and not (data[(n - 1) // 8] >> (7 - (n - 1) % 8)) & 1:
             fixed = rt.size and not rt.size.ext and len(rt.size.ranges) == 1 and rt.size.ranges[0][0] == rt.size.ranges[0][1]
             out.add("bits.trailing0.fixed" if fixed else "bits.trailing0")
+        if rt.size and not rt.named and rt.size.lb() is not None and n < rt.size.lb():
+            out.add("bits.trailing0")     # shorter than the root lower bound: the codec pads with 0 bits
     elif k == "REAL":
         if v == v and v != 0 and abs(v) < 2.2250738585072014e-308:
             out.add("real.subnormal")
